@@ -574,6 +574,96 @@ func (w *srvWorld) reach(pos int) (token string, honest []byte, protect func([]b
 	return m.Token, peer.DoneBody(m.Prove.CUPHNonce), enc, nil
 }
 
+// remac alters the COSE_Encrypt0 inside an encrypt-then-MAC envelope (tag 17) and recomputes the
+// COSE_Mac0 tag with the session's verification key: what a hostile but key-holding session peer can
+// send. Shapes 0..12 are targeted (empty / one-byte / non-block-multiple / one-block / null ciphertext,
+// empty / short / long / null / absent IV, emptied protected header, identity control), larger
+// arguments apply one structure-aware mutation to the inner object.
+const remacShapes = 13
+
+func remac(prot, svk []byte, in input) ([]byte, string, bool) {
+	tree, err := refcbor.ParseAll(prot)
+	if err != nil || tree.Kind != refcbor.Tag || tree.Val != 17 || len(tree.Items) != 1 || len(tree.Items[0].Items) != 4 {
+		return nil, "", false
+	}
+	m := tree.Items[0]
+	if m.Items[0].Kind != refcbor.Bytes || m.Items[2].Kind != refcbor.Bytes {
+		return nil, "", false
+	}
+	inner, err := refcbor.ParseAll(m.Items[2].Bytes)
+	if err != nil || inner.Kind != refcbor.Array || len(inner.Items) != 3 {
+		return nil, "", false
+	}
+	iv := refverify.MapGet(inner.Items[1], 5)
+	a := in.Arg
+	if a < 0 {
+		a = -a
+	}
+	shape := "mutated"
+	setIV := func(b []byte) bool {
+		if iv == nil {
+			return false
+		}
+		*iv = *refcbor.B(b)
+		return true
+	}
+	ok := true
+	switch {
+	case in.Node >= remacShapes:
+		mt, _, applied := refcbor.Apply(inner, refcbor.Mutation{Node: in.Node - remacShapes, Op: "auto", Arg: in.Arg})
+		if !applied {
+			return nil, "", false
+		}
+		inner = mt
+	case in.Node == 0:
+		shape, inner.Items[2] = "ct-empty", refcbor.B(nil)
+	case in.Node == 1:
+		shape, inner.Items[2] = "ct-1byte", refcbor.B([]byte{byte(a)})
+	case in.Node == 2:
+		shape, inner.Items[2] = "ct-15bytes", refcbor.B(bytes.Repeat([]byte{byte(a)}, 15))
+	case in.Node == 3:
+		shape, inner.Items[2] = "ct-oneblock", refcbor.B(bytes.Repeat([]byte{byte(a)}, 16))
+	case in.Node == 4:
+		shape, inner.Items[2] = "ct-17bytes", refcbor.B(bytes.Repeat([]byte{byte(a)}, 17))
+	case in.Node == 5:
+		shape, inner.Items[2] = "ct-null", refcbor.Null()
+	case in.Node == 6:
+		shape, ok = "iv-empty", setIV(nil)
+	case in.Node == 7:
+		shape, ok = "iv-1byte", setIV([]byte{1})
+	case in.Node == 8:
+		shape, ok = "iv-17bytes", setIV(bytes.Repeat([]byte{2}, 17))
+	case in.Node == 9:
+		shape = "iv-null"
+		if iv == nil {
+			return nil, "", false
+		}
+		*iv = *refcbor.Null()
+	case in.Node == 10:
+		shape, inner.Items[1] = "iv-absent", refcbor.M()
+	case in.Node == 11:
+		shape, inner.Items[0] = "prot-empty", refcbor.B(nil)
+	default:
+		shape = "identity"
+	}
+	if !ok {
+		return nil, "", false
+	}
+	payload := refcbor.EncodeKeepOrder(inner)
+	m.Items[2] = refcbor.B(payload)
+	pm, err := refcbor.ParseAll(m.Items[0].Bytes)
+	if err != nil {
+		return nil, "", false
+	}
+	alg, _ := refverify.NodeInt(refverify.MapGet(pm, 1))
+	tag, hok := refverify.Hmac(alg, svk, refverify.MacStructure(m.Items[0].Bytes, nil, payload))
+	if !hok {
+		return nil, "", false
+	}
+	m.Items[3] = refcbor.B(tag)
+	return refcbor.EncodeKeepOrder(tree), shape, true
+}
+
 func evalServer(d caseDesc) ev.Result {
 	ctx, cancel := context.WithTimeout(context.Background(), 60*time.Second)
 	defer cancel()
@@ -587,6 +677,7 @@ func evalServer(d caseDesc) ev.Result {
 		return ev.Failf("setup", "reaching position %d (%s): %v", d.Pos, cfg.Key, err)
 	}
 	var body []byte
+	remacShape := ""
 	if d.In.Kind == "envelope" {
 		// for protected positions: alter the encrypted envelope instead of the plaintext
 		prot, err := protect(honest)
@@ -598,6 +689,18 @@ func evalServer(d caseDesc) ev.Result {
 			return ev.Trivial("input-not-applicable")
 		}
 		body = b
+	} else if d.In.Kind == "remac" {
+		// encrypt-then-MAC suites: hostile inner COSE_Encrypt0 under a correct MAC
+		prot, err := protect(honest)
+		sc, have := w.svc.Mem.SessionCrypter(token)
+		if err != nil || !have {
+			return ev.Result{Skip: true}
+		}
+		b, shape, ok := remac(prot, sc.SVK, d.In)
+		if !ok {
+			return ev.Trivial("input-not-applicable")
+		}
+		body, remacShape = b, shape
 	} else {
 		plain, ok := transform(honest, d.In)
 		if !ok {
@@ -642,6 +745,12 @@ func evalServer(d caseDesc) ev.Result {
 	if d.In.Op == "devmod-grammar" {
 		kindClass = "devmod-grammar"
 	}
+	if remacShape != "" {
+		kindClass = "remac-" + remacShape
+		if remacShape == "identity" && r.Type == 255 {
+			return ev.Failf("remac-control", "%s: an unchanged message under a recomputed MAC was refused (harness MAC computation wrong?): %x", tag, r.Body[:min(len(r.Body), 60)])
+		}
+	}
 	res := ev.OK(fmt.Sprintf("server-%d/%s/%d", d.Pos, kindClass, r.Type))
 	res.NonTrivial = d.In.Kind != "honest"
 	res.ID = fmt.Sprintf("s|%d|%d|%s|%d|%d|%d|%d|%d|%s", d.Pos, d.Cfg%len(cfgs), d.In.Kind, d.In.Node, d.In.Arg, d.In.Node2, d.In.Arg2, d.In.Size, d.In.Hex+d.In.Op+fmt.Sprint(d.In.Resign))
@@ -684,6 +793,14 @@ func evalClient(d caseDesc) ev.Result {
 				}
 				if d.In.Kind == "envelope" {
 					b, ok := transform(ex.RespBody, input{Kind: "mutate", Node: d.In.Node, Arg: d.In.Arg})
+					if !ok {
+						return nil
+					}
+					delivered = len(b)
+					return &deploy.Action{Body: b}
+				}
+				if d.In.Kind == "remac" {
+					b, _, ok := remac(ex.RespBody, sc.SVK, d.In)
 					if !ok {
 						return nil
 					}
@@ -1042,7 +1159,7 @@ func genInput(t *rapid.T, pos int) input {
 	protectedPos := pos >= 65 && pos <= 71
 	kinds := []string{"mutate", "mutate", "mutate", "mutate", "mutate2", "bit", "trunc", "extend", "random", "nest", "binleaf"}
 	if protectedPos {
-		kinds = append(kinds, "envelope", "envelope")
+		kinds = append(kinds, "envelope", "envelope", "remac")
 	}
 	if pos == 68 || pos == 69 {
 		kinds = append(kinds, "manykv", "manykv")
@@ -1058,6 +1175,8 @@ func genInput(t *rapid.T, pos int) input {
 		in.Resign = true
 	case "manykv":
 		in.Size = rapid.IntRange(0, 4).Draw(t, "count")
+	case "remac":
+		in.Node = rapid.IntRange(0, remacShapes+40).Draw(t, "remacnode")
 	}
 	switch in.Kind {
 	case "mutate2":
@@ -1103,7 +1222,7 @@ func TestC10(t *testing.T) {
 		return res
 	})
 
-	r.SetRule("targets", "hand-picked hostile values at the places where peer-supplied integers are used as sizes, indices or algorithm choices: devmod:nummodules negative / 2^31 / 2^62 / text, devmod:modules chunk beyond the announced count, before nummodules, with negative start/len; GetOVNextEntry index -1 / len / 2^62; RSA-1024 public keys in SetCredentials, ProveOVHdr, OVNextEntry and SetupDevice; a client error message naming a protocol whose responder is not configured; same oracle as server/client/http")
+	r.SetRule("targets", "hand-picked hostile values at the places where peer-supplied integers are used as sizes, indices or algorithm choices: devmod:nummodules negative / 2^31 / 2^62 / text, devmod:modules chunk beyond the announced count, before nummodules, with negative start/len; GetOVNextEntry index -1 / len / 2^62; RSA-1024 public keys in SetCredentials, ProveOVHdr, OVNextEntry and SetupDevice; a client error message naming a protocol whose responder is not configured; for the encrypt-then-MAC suites every protected position in both directions × 13 hostile inner COSE_Encrypt0 shapes (empty / 1 / 15 / 16 / 17-byte / null ciphertext, empty / short / long / null / absent IV, emptied protected header, identity control) under a MAC recomputed with the session key; same oracle as server/client/http")
 	enc := func(n *refcbor.Node) string { return hex.EncodeToString(refcbor.Encode(n)) }
 	var targets []caseDesc
 	for c := range cfgs {
@@ -1126,6 +1245,18 @@ func TestC10(t *testing.T) {
 		for sz := 0; sz < 5; sz++ {
 			for a := int64(0); a < 8; a++ {
 				targets = append(targets, caseDesc{Side: "server", Pos: 68, Cfg: c, In: input{Kind: "manykv", Size: sz, Arg: a}}, caseDesc{Side: "client", Pos: 69, Cfg: c, In: input{Kind: "manykv", Size: sz, Arg: a}})
+			}
+		}
+		if strings.HasPrefix(cfgs[c].Cipher, "COSE") { // encrypt-then-MAC suites: hostile inner Encrypt0 under a correct MAC
+			for shape := 0; shape < remacShapes; shape++ {
+				for _, a := range []int64{0, 16} {
+					for _, p := range []int{66, 68, 70} {
+						targets = append(targets, caseDesc{Side: "server", Pos: p, Cfg: c, In: input{Kind: "remac", Node: shape, Arg: a}})
+					}
+					for _, p := range []int{65, 67, 69, 71} {
+						targets = append(targets, caseDesc{Side: "client", Pos: p, Cfg: c, In: input{Kind: "remac", Node: shape, Arg: a}})
+					}
+				}
 			}
 		}
 		for _, p := range []int{11, 61, 63, 65} {
